@@ -239,7 +239,7 @@ func renderPrec(ps []precObs) string {
 
 func runC12(c *ctx) {
 	r := c.rng("specs")
-	n := c.n(4000, 60000)
+	n := c.n(4000, 120000)
 	for i := 0; i < n; i++ {
 		g := genDirectiveSpec(r)
 		semiMask := r.u64()
